@@ -11,7 +11,7 @@ META = {
         "state is rewritten before returning; R2 tag tables: per codec pair, the tag an encoder writes for a variant is a tag the decoder maps "
         "back to that variant, and unknown tags end in Err; R4 tainted length arithmetic: a 64-bit length read from the wire never enters an "
         "unchecked +,* or - nor a split/advance length without a dominating bound (a corrupt length must give an error, not a panic); "
-        "R5 panic audit of the decode bodies; R6 discard accounting: when a decoder drops the buffered part of a body it measures the dropped size before clearing the buffer; R7 bytes split off for the following frames are put back on every exit; R8 a delegating decoder waits for a header only at a frame boundary; R9 a size test against a length read through a peek cursor is made on the cursor or adds the peeked header size; R10 abandoning a frame on an error skips every outstanding part recorded in the state; R11 whole-frame decoders consume the frame before validating it."),
+        "R5 panic audit of the decode bodies; R6 discard accounting: when a decoder drops the buffered part of a body it measures the dropped size before clearing the buffer; R7 bytes split off for the following frames are put back on every exit; R8 a delegating decoder waits for a header only at a frame boundary; R9 a size test against a length read through a peek cursor is made on the cursor or adds the peeked header size; R10 abandoning a frame on an error skips every outstanding part recorded in the state; R11 whole-frame decoders consume the frame before validating it; R12 an exhausted body length without a result is an error."),
     "does_not_decide": "equality of decoded and encoded messages for all values (bodies are Recon, C09); silently wrong messages produced by mutated valid streams inside a body",
 }
 
@@ -636,6 +636,24 @@ def run(ctx):
                         b.blocks[bad[0][0]]["t"].get("line"), bad[0][1].name, bad[0][1].line) if bad else "")
         if n < 4:
             raise AnchorMissing("expected >= 4 whole-frame decoders, found %d" % n)
+
+    with ctx.rule("C10.R12", "T2", "a body whose declared length is used up without a result is an error, not a wait", floor=1) as r:
+        # consume_bounded over an *arbitrary* inner decoder (not the Recon recogniser, whose decode_eof always decides): when the
+        # declared length is exhausted and the inner decoder still answers Ok(None), waiting is pointless - no byte will ever be
+        # passed to it again - and every frame behind it is stuck.
+        n = 0
+        for c, b in decs:
+            tag = (b.meta.get("self_adt") or "?").split("::")[-1]
+            for k_, cb in enumerate([x for x in b.calls if x.name == "consume_bounded" and "RecognizerDecoder" not in x.callee.get("targs", "")]):
+                n += 1
+                ctx.saw(b)
+                nones = [i for i, j, p, rv, line in b.assigns() if describe_rvalue(b, rv) == "Result::Ok(Option::None())" and b.dominates(cb.block, i)
+                         and any(d.startswith("disc(consume_bounded(") and l == "None" for d, l, _ in dom_guards(b, i))]
+                good = bool(nones) and all(any(d.startswith("Eq(") and ".remaining, 0)" in d and l == "false" for d, l, _ in dom_guards(b, i)) for i in nones)
+                r.check(good, "%s/bounded-inner#%d/exhausted-without-result-is-an-error" % (tag, k_), cb.loc(), "Ok(None) is passed on only while some of the declared length is still outstanding (remaining != 0)",
+                        "when the inner decoder answers Ok(None) the outer decoder also returns Ok(None) even if the declared length is used up: nothing will ever be fed to the inner decoder again and the stream stalls behind this frame")
+        if n < 1:
+            raise AnchorMissing("expected a consume_bounded call over a generic inner decoder (DownlinkNotificationDecoder)")
 
 
 def _short(d):
